@@ -28,6 +28,8 @@ ENGINE_INFO = {
     "prgcrash": "consumer process + simulated checkpoint disk with crash/restart and write faults",
 }
 
+CRAFT_RULE = "; mode craft = single-dealer worlds whose HONEST dealer is played by the simulator with a secret polynomial chosen from edge-case families of the group law in the receivers' public-share computation (partial Horner sum equal / opposite to the next coefficient at a chosen participant index, zero middle coefficient, equal / opposite / tiny coefficients, two participants with the same share), all receivers honest, every delivery order of vector and share: no complaint, no callback, and End() returns exactly sk_j = P(j+1), pk_j = P(j+1)*g2, group key a_0*g2 (expected values through DecodePrivateKey(..).PublicKey(), the library's generator multiplication)"
+
 THR_RULE = ("each run draws n (2..12, thorough also 8,9,16,17,24,25,64,65,200,254), t in {1,(n-1)/2,n-1,random}, seed, message, tag, up to 3 Byzantine signers, 1-3 collectors each in a mode "
             "(VerifyAndAdd, VerifyShare+TrustedAdd, blind TrustedAdd, mixed VerifyAndAdd/TrustedAdd per arrival, stateless list), per-message drop/duplicate/out-of-range-origin faults and the complete delivery order from the choice stream; "
             "Byzantine shares: other signer's share, signature of another message, point outside G1, off-curve x, x>=p, cleared compression bit, infinity, negated, lengths 0/47/49, random bytes. "
@@ -55,11 +57,12 @@ CHECKS = {
             {"engine": "dkgsim", "mode": "adv", "runs": {"quick": 12000, "thorough": 300000}, "budget": {"quick": 45, "thorough": 1200}},
             {"engine": "dkgsim", "mode": "wide", "runs": {"quick": 32, "thorough": 3200}, "budget": {"quick": 60, "thorough": 1500}, "det": False},
             {"engine": "dkgsim", "mode": "big", "runs": {"quick": 0, "thorough": 160}, "budget": {"quick": 0, "thorough": 1500}, "det": False},
+            {"engine": "dkgsim", "mode": "craft", "runs": {"quick": 6000, "thorough": 150000}, "budget": {"quick": 45, "thorough": 1200}},
         ],
-        "rule": PROTO_RULE + "; mode adv = adversarial templates (the single dealer is Byzantine, every Byzantine participant misbehaves systematically per message kind, its vector is mostly held back and sent last in the round); mode wide = single-dealer protocols with n in {128..131,160,200,253,254} and t <= 3 (participant indices beyond 127); mode big = Joint-Feldman with n in 16..32",
+        "rule": PROTO_RULE + "; mode adv = adversarial templates (the single dealer is Byzantine, every Byzantine participant misbehaves systematically per message kind, its vector is mostly held back and sent last in the round); mode wide = single-dealer protocols with n in {128..131,160,200,253,254} and t <= 3 (participant indices beyond 127); mode big = Joint-Feldman with n in 16..32" + CRAFT_RULE,
         "time_unit": "protocol rounds (3 per run), timer events and message deliveries",
         "real": DKG_REAL, "stub": DKG_STUB, "assumptions": DKG_ASSUME,
-        "expected_probes": ["dkg_succeeded", "dkg_failed", "jf_failed", "honest_complaint", "threshold_signature_checked", "groupkey_recomputed_from_vectors", "exactly_t_complaints", "t_plus_1_complaints", "vector_late", "vector_malformed_first"],
+        "expected_probes": ["dkg_succeeded", "dkg_failed", "jf_failed", "honest_complaint", "threshold_signature_checked", "groupkey_recomputed_from_vectors", "exactly_t_complaints", "t_plus_1_complaints", "vector_late", "vector_malformed_first", "crafted_dealing_accepted"],
     },
     "C08": {
         "batches": [
@@ -67,12 +70,13 @@ CHECKS = {
             {"engine": "dkgsim", "mode": "adv", "runs": {"quick": 12000, "thorough": 300000}, "budget": {"quick": 45, "thorough": 1200}},
             {"engine": "dkgsim", "mode": "fvss", "runs": {"quick": 20000, "thorough": 300000}, "budget": {"quick": 30, "thorough": 900}},
             {"engine": "dkgsim", "mode": "wide", "runs": {"quick": 32, "thorough": 3200}, "budget": {"quick": 60, "thorough": 1500}, "det": False},
+            {"engine": "dkgsim", "mode": "craft", "runs": {"quick": 6000, "thorough": 150000}, "budget": {"quick": 45, "thorough": 1200}},
         ],
-        "rule": PROTO_RULE + "; mode adv = adversarial templates (the single dealer is Byzantine, every Byzantine participant misbehaves systematically per message kind, its vector is mostly held back and sent last in the round); mode wide = single-dealer protocols with n in {128..131,160,200,253,254} and t <= 3; mode fvss = plain Feldman VSS worlds only (every order of vector and share deliveries, every malformation kind)",
+        "rule": PROTO_RULE + "; mode adv = adversarial templates (the single dealer is Byzantine, every Byzantine participant misbehaves systematically per message kind, its vector is mostly held back and sent last in the round); mode wide = single-dealer protocols with n in {128..131,160,200,253,254} and t <= 3; mode fvss = plain Feldman VSS worlds only (every order of vector and share deliveries, every malformation kind)" + CRAFT_RULE,
         "time_unit": "protocol rounds (3 per run), timer events and message deliveries",
         "real": DKG_REAL, "stub": DKG_STUB,
         "assumptions": DKG_ASSUME + ["must-disqualify expectations are derived from the mutator's labels (which polynomial a vector/share/answer belongs to), never by recomputing curve points"],
-        "expected_probes": ["must_disqualify", "fvss_failed", "fvss_keys", "fault_free_run_succeeded", "honest_complaint"],
+        "expected_probes": ["must_disqualify", "fvss_failed", "fvss_keys", "fault_free_run_succeeded", "honest_complaint", "crafted_dealing_accepted"],
     },
     "C09": {
         "batches": [
